@@ -25,7 +25,7 @@ from harness.core import Result
 
 LEVEL = "exploration"
 RULES = {
-    "exh": "exhaustive: every call history of length <= n over 15 wrapper operations (accept, accept(subprotocol), receive, "
+    "exh": "exhaustive (incl. scripts in which the server's send raises on the close frame): every call history of length <= n over 15 wrapper operations (accept, accept(subprotocol), receive, "
     "receive_text, receive_bytes, iter_text(2), iter_bytes(2), send_text, send_bytes, close, close(code), raw send of "
     "accept/send/close/garbage) x server scripts (connect, 0..k text/bytes frames, then disconnect or silence), driven "
     "without an event loop; non-trivial = history contains an illegal call or a disconnect is delivered before the last call",
@@ -59,6 +59,8 @@ class Server:
         self.receive_calls = 0
         self.disconnect_delivered = False
         self.late_receive = False
+        self.fail_close = False
+        self.close_failed = False
 
     async def receive(self):
         self.receive_calls += 1
@@ -75,7 +77,10 @@ class Server:
         raise core.HarnessError("resumed a parked receive")
 
     async def send(self, message):
-        self.forwarded.append(dict(message))
+        self.forwarded.append(dict(message))  # what the application tried to forward
+        if self.fail_close and message.get("type") == "websocket.close" and not self.close_failed:
+            self.close_failed = True
+            raise OSError("connection lost while sending the close frame (injected)")
 
 
 def drive(coro):
@@ -120,12 +125,14 @@ OPS = [
 class Model:
     """Reference automaton of wrapper + scripted server."""
 
-    def __init__(self, script):
+    def __init__(self, script, fail_close=False):
         self.script = script
         self.cs = 0
         self.as_ = 0
         self.pos = 0
         self.forwarded = []
+        self.fail_close = fail_close
+        self.close_failed = False
 
     def receive(self):
         if self.cs == 2:
@@ -149,6 +156,11 @@ class Model:
         else:
             return ("raise", None)
         self.forwarded.append(dict(msg))
+        if self.fail_close and t == "websocket.close" and not self.close_failed:
+            # the server's send raises on the close frame: the call fails, but a close was attempted -
+            # the connection is over and nothing may be forwarded afterwards
+            self.close_failed = True
+            return ("fault", None)
         return ("ok", None)
 
     def typed(self, kind):
@@ -273,7 +285,8 @@ def oracle(case) -> Result:
     script = build_script(case["script"])
     ops = case["ops"]
     server = Server(script)
-    model = Model(script)
+    server.fail_close = bool(case["script"].get("fail_close"))
+    model = Model(script, server.fail_close)
     scope = {"type": "websocket", "path": "/", "headers": [], "subprotocols": ["sp"]}
     ws = WebSocket(scope, server.receive, server.send)
     illegal_seen = False
@@ -307,7 +320,10 @@ def oracle(case) -> Result:
                 f"{where}: (client, application) state {cur}, but delivered={dl_types} forwarded={fwd_types} imply {(want_cs, want_as)}",
             )
         # model comparison
-        if want["outcome"] == "raise":
+        if want["outcome"] == "fault":
+            if got[0] != "raise" or not isinstance(got[1], OSError):
+                r.fail(f"C11:injected-fault-swallowed:{op}", f"{where}: outcome {got[0]} {got[1]!r}")
+        elif want["outcome"] == "raise":
             illegal_seen = True
             if got[0] != "raise":
                 r.fail(f"C11:illegal-call-did-not-raise:{op}", f"{where}: outcome {got[0]} {got[1]!r}")
@@ -346,7 +362,9 @@ def oracle(case) -> Result:
         r.label("has-illegal-call")
     if server.disconnect_delivered:
         r.label("disconnect-delivered")
-    r.key = (case["script"]["frames"], case["script"]["end"], tuple(ops))
+    r.key = (case["script"]["frames"], case["script"]["end"], bool(case["script"].get("fail_close")), tuple(ops))
+    if case["script"].get("fail_close"):
+        r.label("close-frame-fault")
     return r
 
 
@@ -456,6 +474,9 @@ def scripts(maxframes):
         for fr in itertools.product("TB", repeat=n):
             for end in ("disconnect", "silence"):
                 yield {"frames": "".join(fr), "end": end}
+    # fault: the server's send raises on the (first) close frame
+    for fr in ("", "T"):
+        yield {"frames": fr, "end": "silence", "fail_close": True}
 
 
 def exh_shard(rec, k, nshards, maxlen, maxframes):
@@ -482,7 +503,7 @@ def long_case():
     return st.fixed_dictionaries(
         {
             "script": st.fixed_dictionaries(
-                {"frames": st.text(alphabet="TB", max_size=6), "end": st.sampled_from(["disconnect", "silence"])}
+                {"frames": st.text(alphabet="TB", max_size=6), "end": st.sampled_from(["disconnect", "silence"]), "fail_close": st.sampled_from([False, False, True])}
             ),
             "ops": st.lists(st.sampled_from(OPS + ["raw_http"]), min_size=1, max_size=14),
         }
@@ -504,7 +525,7 @@ def guided_case():
     return st.fixed_dictionaries(
         {
             "script": st.fixed_dictionaries(
-                {"frames": st.text(alphabet="TB", max_size=5), "end": st.sampled_from(["disconnect", "disconnect", "silence"])}
+                {"frames": st.text(alphabet="TB", max_size=5), "end": st.sampled_from(["disconnect", "disconnect", "silence"]), "fail_close": st.sampled_from([False, False, True])}
             ),
             "ops": st.builds(lambda a, b: a + b, pre, body),
         }
